@@ -87,7 +87,7 @@ class Hexital:
                 indicator.candle_manager = self._candles[indicator.timeframe]
             else:
                 manager = CandleManager(
-                    deepcopy(self._candles[DEFAULT_CANDLES]).candles,
+                    self._clean_candles(),
                     candles_lifespan=self.candles_lifespan,
                     timeframe=indicator.timeframe if indicator.timeframe else self.timeframe,
                     timeframe_fill=self.timeframe_fill,
@@ -97,6 +97,15 @@ class Hexital:
                 indicator.candle_manager = self._candles[manager.name]
 
         return valid_indicators
+
+    def _clean_candles(self) -> List[Candle]:
+        """Copies of the default candles with their raw values, free of readings and conversion"""
+        candles = deepcopy(self._candles[DEFAULT_CANDLES].candles)
+        for candle in candles:
+            candle.recover_clean_values()
+            candle.clean_values = {}
+            candle.reset_candle()
+        return candles
 
     def _build_indicator(self, raw_indicator: dict) -> Indicator:
         analysis_map = PATTERN_MAP | MOVEMENT_MAP
